@@ -32,7 +32,7 @@ ASSUMPTIONS = [
     'labels of pandas indexes are compared with ==',
 ]
 
-FAULTS = ['none', 'exc', 'nans', 'nanw', 'nonconv']
+FAULTS = ['none', 'exc', 'nans', 'nanw', 'nonconv', 'nans-last', 'nanw-last']   # '-last': the fault arrives on pass 3 = max_iter
 NORMAL = [('moved', 0), ('conv', 0), ('conv', 0)]  # converges at pass 2, or at pass 3 when min_iter == max_iter == 3
 
 
@@ -56,6 +56,8 @@ def build(kind, n, fpos, fault):
     scripts = {p: list(NORMAL) for p in range(n)}
     if fault == 'nonconv':
         scripts[fpos] = [('moved', 0)] * 8
+    elif fault.endswith('-last'):
+        scripts[fpos] = [('moved', 0), ('moved', 0), (fault[:-5], 0)]
     elif fault != 'none':
         scripts[fpos] = [('moved', 0), (fault, 0)]
     m = scripted.make_scripted(span, scripts, cls=_BUILD_CLS[0] or LScripted)
@@ -161,6 +163,8 @@ def _run_pair_case(case):
             else:
                 if p == fpos and fault == 'nonconv':
                     hist = ['moved'] * 8
+                elif p == fpos and fault.endswith('-last'):
+                    hist = ['moved', 'moved', fault[:-5]]
                 elif p == fpos and fault != 'none':
                     hist = ['moved', fault]
                 else:
@@ -226,7 +230,7 @@ def run_pairs(block, tier, acc):
             for errors in ('raise', 'skip', 'ignore', 'replace'):
                 for failures in ('raise', 'ignore'):
                     for min_iter, cfe in ((0, True), (3, True), (0, False), (3, False)):  # 3 == max_iter: a fixed number of passes; a fault at pass 2 comes before min_iter
-                        if cfe is False and (fault in ('none', 'nonconv') or errors != 'raise'):
+                        if cfe is False and (fault in ('none', 'nonconv') or errors != 'raise' or fault.endswith('-last')):
                             continue
                         case = dict(kind='pairs', span=kind, n=n, si=si, ei=ei, fpos=fpos, fault=fault, errors=errors,
                                     failures=failures, min_iter=min_iter, cfe=cfe)
